@@ -30,6 +30,11 @@ def f_defs(max_events, min_events=1):
     return [("F:" + puml.to_text(d), d) for d in fragment.enumerate_F(max_events, min_events)]
 
 
+def triple_defs():
+    """the systematic depth-3 members of F (fragment.nesting_triples)"""
+    return [("F:" + puml.to_text(d), d) for d in fragment.nesting_triples()]
+
+
 def fplus_defs(max_events):
     return [("F+:" + puml.to_text(d), d) for d in fragment.enumerate_Fplus(max_events)]
 
